@@ -95,7 +95,34 @@ func convRun(w *World, coll bool) {
 	}
 	for _, s := range cw.subs {
 		s := s
-		w.Go(s.name, true, func(t *Task) { s.run(t, cw.r) })
+		late := t.Choose(4) // some subscribers turn up while the writers are already at work
+		w.Go(s.name, true, func(t *Task) {
+			for i := 0; i < late; i++ {
+				t.Yield("later")
+			}
+			s.run(t, cw.r)
+		})
+	}
+	var passerBy context.CancelFunc
+	if t.Flag(1, 3) {
+		// somebody who subscribes and soon leaves again: listeners come and go while the others must not notice
+		ctx, cancel := context.WithCancel(context.Background())
+		passerBy = cancel // (it may still be waiting for its first event when the run is over)
+		tmp := &subscriber{name: "passer-by", cfg: subCfg{Backpressure: t.Flag(1, 2), UpdatesOnly: t.Flag(1, 2)}, ctx: ctx, cancel: cancel}
+		stay := t.Choose(3)
+		w.Go(tmp.name, true, func(t *Task) {
+			tmp.open(cw.r)
+			for i := 0; i < stay; i++ {
+				t.Yield("recv")
+				if !tmp.recv(t.W) {
+					return
+				}
+			}
+			t.Yield("leave")
+			cancel()
+			for tmp.recv(t.W) {
+			}
+		})
 	}
 	w.Run()
 	if w.Deadlocked {
@@ -109,6 +136,9 @@ func convRun(w *World, coll bool) {
 	// shutdown
 	for _, s := range cw.subs {
 		s.cancel()
+	}
+	if passerBy != nil {
+		passerBy()
 	}
 	if cw.probe != nil {
 		cw.probe.cancel()
